@@ -519,6 +519,12 @@ class Executor:
             elif k == 'idx':
                 iv = fr.locals[p[1]]
                 if not iv.conc():
+                    # only arrays of atomics may be indexed symbolically: the element reference is then consumed by the
+                    # Atomic::load / store summaries, which keep the array contents as a z3 array in the state
+                    base = self.load(st, fid, local, path)
+                    if isinstance(base, A) and base.f and all(isinstance(x, Native) and x.tag == 'atomic' for x in base.f):
+                        path = path + (('isym', iv.v),)
+                        continue
                     raise Inconclusive('symbolic index')
                 path = path + (('i', iv.v),)
             elif k == 'cidx':
@@ -900,6 +906,24 @@ class Executor:
                 return S(w, z3.If(r < 0, r + m, r))
             if n == 'Mul' and (a.conc() or b.conc()):
                 return S(w, (x * y) % m)
+            if n == 'BitAnd' and (a.conc() or b.conc()):
+                k_, t_ = (x, y) if a.conc() else (y, x)
+                if k_ & (k_ + 1) == 0:             # mask 2^j - 1: the low j bits
+                    return S(w, t_ % (k_ + 1))
+            if n in ('BitOr', 'BitXor'):
+                # operands with disjoint bits (`hi << j | lo` with lo < 2^j): the sum
+                for j in (8, 16, 24, 4, 1, 2, 12, 20):
+                    for hi_, lo_ in ((x, y), (y, x)):
+                        hz = (hi_ % (1 << j) == 0) if not isinstance(hi_, int) else (hi_ % (1 << j) == 0)
+                        lz = (lo_ < (1 << j)) if not isinstance(lo_, int) else (lo_ < (1 << j))
+                        bad = z3.Not(z3.And(hz, lz)) if not (isinstance(hz, bool) and isinstance(lz, bool)) else (not (hz and lz))
+                        if isinstance(bad, bool):
+                            if not bad:
+                                return S(w, hi_ + lo_)
+                            continue
+                        feasible, _ = self.sat_under(st, bad)
+                        if not feasible:
+                            return S(w, hi_ + lo_)
             raise Inconclusive('bit operation %s on integer-encoded symbolic values' % n)
         if name in ('Shl', 'Shr', 'ShlUnchecked', 'ShrUnchecked') and conc:
             sh = y
@@ -915,6 +939,8 @@ class Executor:
             return S(w, (r % m) if feasible else r)
         if name in ('Shr', 'ShrUnchecked') and b.conc() and not isbv and w > 1 and 0 <= y < w:
             return S(w, x / (1 << y))       # z3 Int division of a non-negative term = floor
+        if name in ('Div', 'Rem') and b.conc() and not a.conc() and not isbv and isinstance(y, int) and y > 0 and w > 1:
+            return S(w, (x / y) if name == 'Div' else (x % y))      # unsigned, integer-encoded: floor division / modulo
         if name in ('Div', 'Rem') and conc and y != 0:
             return S(w, x // y if name == 'Div' else x % y)
         raise Inconclusive('binop ' + name)
